@@ -518,6 +518,128 @@ def grow_shape(ctx, g):
            "size + m chambers; d > size -> Some(d), else ds.op(i, d) (4 chambers evaluated)" if not bad and n_eval == 4 else (bad or "not evaluated"))
 
 
+def collapse_shape(ctx, g):
+    """collapse(ds, remove, connector) renumbers the surviving chambers and re-routes every operation i != connector through the removed
+    region: e = d.i; while e is removed { e = e.connector.i }.  Decided (shape): the two renumbering maps are written as inverses of each other,
+    only for chambers not in `remove`, over 1..=size; the result has size - |remove| chambers; the closure starts at op(i, img2src[d]), steps by
+    op(i, op(connector, e)) exactly while src2img[e] == 0 and only for i != connector, and answers src2img[e]"""
+    ctx.clauses.append("collapse: inverse renumbering maps over the kept chambers, operations re-routed through the removed region by e.connector.i (T9)")
+    b = ctx.body(M + "collapse")
+    ctx.scan(ctx.facts.with_closures(b.name))
+    # (a) the maps
+    stores = []
+    for bi, si, s in b.assigns():
+        if [e["k"] for e in s["place"]["p"]] == ["deref"]:
+            tgt = strip(norm(b.local_origin(s["place"]["l"]), g))
+            if is_call(tgt, "IndexMut::index_mut"):
+                stores.append((bi, strip(tgt[2][0]), strip(tgt[2][1]), strip(norm(b.rv_origin(s["rv"]), g))))
+    bad = None
+    if len(stores) != 2:
+        bad = "%d indexed stores (expected src2img[d] = next; img2src[next] = d)" % len(stores)
+    else:
+        (b1, v1, k1, x1), (b2, v2, k2, x2) = stores
+        if not (v1 != v2 and k1 == x2 and k2 == x1):
+            bad = "the two renumbering maps are not written as inverses: %s[%s] = %s, %s[%s] = %s" % (show(v1, 1), show(k1, 1)[:20], show(x1, 1)[:20], show(v2, 1), show(k2, 1)[:20], show(x2, 1)[:20])
+        else:
+            src = k1 if is_call(strip(k1[1])[1] if k1[0] == "field" else k1, "Iterator::next") or contains(k1, lambda x: is_call(x, "Iterator::next")) else k2
+            cnt = k2 if src is k1 else k1
+            r = loop_range_of_payload(b, src, g)
+            size = ("field", ("field", ("variant", ("param", 1, b.debug.get(1, "")), "DSet"), "0"), "size")
+            okr = r is not None and eval_int(r[0]) == 1 and r[2] and contains(r[1], lambda x: x[0] == "field" and x[2] == "size") and not contains(r[1], lambda x: x[0] == "binop")
+            if not okr:
+                bad = "the renumbering loop does not run over 1..=size(): %s" % (r,)
+            for bb in (b1, b2):
+                fa = [atom_norm(a, g) for a in b.facts_at(bb)]
+                if not any(a[0] == "bool" and a[2] is False and a[1][0] == "call" and a[1][1].endswith("::contains") and strip(a[1][2][1]) == src for a in fa):
+                    bad = bad or "a chamber is numbered without `!remove.contains(&d)` dominating the store"
+            if cnt[0] != "local":
+                bad = bad or "the new number is not a running counter"
+            else:
+                defs = [strip(norm(d, g)) for _, d in b.all_defs_origins(cnt[1])]
+                inc = [d for d in defs if d[0] == "field" and d[1][0] == "binop" and d[1][1] == "AddWithOverflow" and strip(d[1][2]) == cnt and eval_int(d[1][3]) == 1]
+                ini = [d for d in defs if eval_int(d) == 1]
+                if len(defs) != 2 or len(inc) != 1 or len(ini) != 1:
+                    bad = bad or "the counter is not `next = 1; next += 1` (%s)" % [show(d, 1)[:30] for d in defs]
+    ctx.ob("T9-collapse-shape", b.name, "renumbering maps", "ok" if not bad else "violation",
+           "src2img[d] = next; img2src[next] = d; next += 1 for every d in 1..=size() not in remove" if not bad else bad)
+    # (b) the result and its operation
+    sites = list(b.calls("build_set"))
+    if len(sites) != 1:
+        raise AnchorMissing("collapse: build_set")
+    bi, t = sites[0]
+    a0 = strip(norm(b.origin(t["args"][0]), g))
+    bad = None
+    sz = unov_term(a0)
+    if not (sz[0] == "binop" and sz[1] == "Sub" and strip(sz[2])[0] == "field" and strip(sz[2])[2] == "size" and is_call(strip(sz[3]), "::len")):
+        bad = "the collapsed set is not built with size() - remove.len() chambers: %s" % show(a0, 1)[:60]
+    cp = closure_parts(norm(b.origin(t["args"][2]), g))
+    if cp is None or cp[0] not in ctx.facts.bodies:
+        raise AnchorMissing("collapse: operation closure")
+    cb = ctx.facts.bodies[cp[0]]
+    caps = [strip(norm(c, g)) for c in cp[1]]
+    names = {}
+    for k, c in enumerate(caps):
+        if c[0] == "local":
+            names[b.debug.get(c[1], "")] = ("field", ("param", 1, ""), str(k))
+        elif c[0] == "param":
+            names[c[2]] = ("field", ("param", 1, ""), str(k))
+        else:
+            names["ds"] = ("field", ("param", 1, ""), str(k))
+
+    def capn(n):
+        x = names.get(n)
+        if x is None:
+            raise AnchorMissing("collapse closure capture " + n)
+        return x
+    s2i, i2s, con, dsn = capn("src2img"), names.get("img2src", ("absent",)), capn("connector"), capn("ds")
+    i_p, d_p = ("param", 2, cb.debug.get(2, "")), ("param", 3, cb.debug.get(3, ""))
+
+    def un(x):
+        x = strip(x)
+        return strip(x[2][0]) if is_call(x, "Option::<T>::unwrap") else None
+
+    def opcall(x):
+        """(index term, chamber term) for ds.op(i, d)"""
+        x = strip(x) if x is not None else None
+        if x is not None and x[0] == "call" and x[1].endswith("::op") and len(x[2]) == 3 and strip(x[2][0]) == dsn:
+            return strip(x[2][1]), strip(x[2][2])
+        return None
+
+    def idx(x, arr):
+        ix = as_index(x)
+        return strip(ix[1]) if ix and ix[0] == arr else None
+    ret = strip(norm(cb.local_origin(0), g))
+    e_loc = None
+    if ret[0] == "agg" and ret[1].endswith("Option::Some"):
+        e_loc = idx(ret[2][0], s2i)
+    if e_loc is None or e_loc[0] != "local":
+        bad = bad or "the operation does not answer Some(src2img[e]): %s" % show(ret, 1)[:50]
+    else:
+        defs = [(dbb, strip(norm(d, g))) for dbb, d in cb.all_defs_origins(e_loc[1])]
+        start = [d for dbb, d in defs if opcall(un(d)) and opcall(un(d))[0] == i_p and idx(opcall(un(d))[1], i2s) == d_p]
+        step = []
+        for dbb, d in defs:
+            o = opcall(un(d))
+            if o and o[0] == i_p:
+                o2 = opcall(un(o[1]))
+                if o2 and o2[0] == con and o2[1] == e_loc:
+                    step.append(dbb)
+        if len(defs) != 2 or len(start) != 1 or len(step) != 1:
+            bad = bad or "the walk is not `e = ds.op(i, img2src[d]); e = ds.op(i, ds.op(connector, e))`: %s" % [show(d, 1)[:60] for _, d in defs]
+        else:
+            fa = [atom_norm(a, g) for a in cb.facts_at(step[0])]
+            if not any(a[0] == "rel" and a[1] == "Eq" and idx(a[2], s2i) == e_loc and eval_int(a[3]) == 0 for a in fa):
+                bad = bad or "the re-routing step is not taken exactly while src2img[e] == 0"
+            if not any(a[0] == "rel" and a[1] == "Ne" and {strip(a[2]), strip(a[3])} == {i_p, con} for a in fa):
+                bad = bad or "the re-routing step is not restricted to i != connector"
+            loops = natural_loops(cb)
+            exits = [atom_norm(a, g) for h, blocks in loops for e_, ats in loop_exit_atoms(cb, h, blocks, g) for a in ats]
+            if not any(a[0] == "rel" and a[1] == "Ne" and idx(a[2], s2i) == e_loc and eval_int(a[3]) == 0 for a in exits):
+                bad = bad or "the walk does not end exactly when src2img[e] != 0"
+    ctx.ob("T9-collapse-shape", b.name, "re-routed operation", "ok" if not bad else "violation",
+           "size() - remove.len() chambers; e = d.i, while removed e = e.connector.i (i != connector), answer src2img[e]" if not bad else bad)
+
+
 def in_loop(body, bb):
     return any(bb in blocks for h, blocks in natural_loops(body))
 
@@ -717,5 +839,6 @@ def run(ctx):
     reglue_pairs(ctx, g)
     cut_tables(ctx, g)
     grow_shape(ctx, g)
+    collapse_shape(ctx, g)
     for bi, t in mi:
         every_iteration_reaches(ctx, "T3-merge-every-step", ma, bi, "step-loop->op(&ds)", "some step of merge_all's table is skipped")
